@@ -10,10 +10,12 @@ package c09
 
 import (
 	"context"
+	"errors"
 	"fmt"
 	"math"
 	"sort"
 	"testing"
+	"time"
 
 	"verifharness/vh"
 
@@ -34,10 +36,24 @@ type fake struct {
 	name string
 	ans  map[string]ndc
 	null bool // answer with a nil map
+	// slow plugin: signals [entered], then waits for [release] before answering;
+	// fail: answers with an error after the release (a plugin honouring its context)
+	entered chan struct{}
+	release chan struct{}
+	fail    bool
 }
+
+var errSlow = errors.New("slow plugin gave up")
 
 func (f *fake) Name() string { return f.name }
 func (f *fake) GetNodesDeployCapacity(_ context.Context, _ []string, _ resourcetypes.RawParams) (*plugintypes.GetNodesDeployCapacityResponse, error) {
+	if f.release != nil {
+		close(f.entered)
+		<-f.release
+		if f.fail {
+			return nil, errSlow
+		}
+	}
 	if f.null {
 		return &plugintypes.GetNodesDeployCapacityResponse{}, nil
 	}
@@ -332,4 +348,96 @@ func TestC09(t *testing.T) {
 		emit("malformed", as, true)
 	}
 	r.Finish("corpus (defect witnesses, nil/empty/disjoint answers, overflowing finite sums), then random answer sets of 1-4 plugins over up to 5 nodes (capacities small / 0 / MaxInt64 / near MaxInt64; usage, rate on the 1/100 grid, dyadic or random; weights 1, 100, small integers, 0.5, random), each run 8 times with shuffled plugin registration; then malformed answers (zero or negative weight, Inf/NaN/negative usage, negative capacity). non-trivial = at least two plugins and at least one node offered")
+
+	// ---- fan-out (cobalt/call.go): one plugin is still answering when the caller's context ends ----
+	rc := vh.New(t, prop, "call")
+	rc.Coq("From Verif Require Import Base.GoFloat Cobalt.Merge.\nClose Scope Z_scope.", "Merge.ccase", "Merge.agree_call", "Merge.ok_call")
+	gc := gen{rc}
+	emitSlow := func(kind string, answers []map[string]ndc, slow int, fail bool, how string) {
+		m, _ := cobalt.New(coretypes.Config{})
+		entered, release := make(chan struct{}), make(chan struct{})
+		ps := []plugins.Plugin{}
+		for i := range answers {
+			f := &fake{name: fmt.Sprintf("p%d", i), ans: answers[i]}
+			if i == slow {
+				f.entered, f.release, f.fail = entered, release, fail
+			}
+			ps = append(ps, f)
+		}
+		m.AddPlugins(ps...)
+		ctx, cancel := context.WithCancel(context.Background())
+		if how == "deadline" {
+			ctx, cancel = context.WithTimeout(context.Background(), 30*time.Millisecond)
+		}
+		defer cancel()
+		type out struct {
+			m     map[string]*ndc
+			total int
+			err   error
+		}
+		done := make(chan out, 1)
+		go func() {
+			res, total, err := m.GetNodesDeployCapacity(ctx, []string{"n0", "n1", "n2", "n3", "n4"}, resourcetypes.Resources{})
+			done <- out{res, total, err}
+		}()
+		<-entered // the slow plugin is inside its call; the others answer at once
+		time.Sleep(20 * time.Millisecond)
+		if how == "cancel" {
+			cancel()
+		} else {
+			<-ctx.Done()
+		}
+		early := false
+		var o out
+		select {
+		case o = <-done: // the manager returned although one plugin has not answered yet
+			early = true
+			close(release)
+		case <-time.After(250 * time.Millisecond):
+			close(release)
+			o = <-done
+		}
+		coqAns := []string{}
+		descAns := []any{}
+		for i, a := range answers {
+			if i == slow && fail {
+				coqAns = append(coqAns, "None")
+				descAns = append(descAns, "error")
+			} else {
+				coqAns = append(coqAns, vh.Some(coqMap(a)))
+				descAns = append(descAns, descMap(a))
+			}
+		}
+		obsTerm := "None"
+		var obsDesc any = "error"
+		if o.err == nil {
+			res := map[string]ndc{}
+			for k, v := range o.m {
+				res[k] = *v
+			}
+			obsTerm = vh.Some(vh.Pair(coqMap(res), vh.Z(int64(o.total))))
+			obsDesc = map[string]any{"map": descMap(res), "total": o.total}
+		}
+		rc.Count("kind=" + kind)
+		rc.Count("context=" + how)
+		rc.Count(fmt.Sprintf("slow_fails=%v", fail))
+		rc.Count(fmt.Sprintf("returned_early=%v", early))
+		rc.Count(fmt.Sprintf("plugins=%d", len(answers)))
+		rc.Add(fmt.Sprintf("(mkCCase %s %s %s)", vh.List(coqAns), vh.Bool(early), obsTerm),
+			map[string]any{"answers": descAns, "slow": slow, "slow_fails": fail, "context": how, "returned_early": early, "observed": obsDesc},
+			map[string]any{"kind": kind, "plugins": len(answers), "slow_fails": fail}, !fail)
+	}
+	two := []map[string]ndc{
+		{"n1": {Capacity: 5, Usage: 0.5, Rate: 0.1, Weight: 100}, "n2": {Capacity: 7, Usage: 0.5, Rate: 0.1, Weight: 100}},
+		{"n1": {Capacity: 2, Usage: 0.25, Rate: 0.2, Weight: 1}}}
+	emitSlow("corpus", two, 1, false, "cancel") // the slow plugin would lower n1 to 2 and drop n2
+	emitSlow("corpus", two, 1, false, "deadline")
+	emitSlow("corpus", two, 0, false, "cancel")
+	emitSlow("corpus", two, 1, true, "cancel") // the slow plugin gives up with an error: the whole call must fail
+	nc := rc.N(12, 120)
+	for i := 0; i < nc; i++ {
+		np := 2 + gc.r.Rng.Intn(3)
+		emitSlow("random", gc.answers(np, true), gc.r.Rng.Intn(np), (gc.r.Rng.Float64() < 0.3), []string{"cancel", "deadline"}[gc.r.Rng.Intn(2)])
+	}
+	rc.Finish("2-4 fake plugins; one of them blocks inside GetNodesDeployCapacity on a channel the harness controls; the caller's context is cancelled (or its 30 ms deadline passes) while it is blocked; the harness waits 250 ms for an early return, then releases the plugin (which answers, or fails in 30% of the cases). non-trivial = the slow plugin answers")
 }
